@@ -139,7 +139,8 @@ def cli_cases(ctx, n):
                 ctx.failures.append(Failure("C13/cli-output", "command-line quality trimming deviates from the specification",
                                             dict(argv=argv, input=inp, read=n_), [os_, oq], [s[a:b], qs[a:b]]))
         rep = r.json["basepair_counts"] if r.json else None
-        if r.json and r.json["basepair_counts"]["quality_trimmed"] != removed:
+        # `-q 0` builds no trimmer at all: the report then says null (nothing was trimmed)
+        if r.json and (r.json["basepair_counts"]["quality_trimmed"] or 0) != removed:
             ctx.failures.append(Failure("C13/cli-quality-trimmed-count", "reported quality-trimmed bases differ from bases removed",
                                         dict(argv=argv, input=inp), rep, removed))
         ctx.count("cli:" + mode)
